@@ -523,6 +523,24 @@ async fn run_churn(addr: SocketAddr, certs: Certs, id: u64, seed: u64, timeout_m
         }
         live.push(("old0".into(), c, rq));
     }
+    // a foreign requestor (hand-written wire peer) on the same topic whose requests already carry routing tags naming
+    // other requestors: the server must tag every request itself, so none of its replies may reach anybody else
+    let foreign_conn = raw_connect(addr, &certs).await.map_err(|e| format!("foreign peer: {e}"))?;
+    let foreign = {
+        use super::wire::*;
+        let mut f = WireStream::register(&foreign_conn.conn, T_REG_REQ, &topic, Duration::from_secs(8)).await.map_err(|e| format!("foreign requestor: {e}"))?;
+        tokio::spawn(async move {
+            for i in 0..4000u32 {
+                let hdr = vec![("cid".to_string(), (i % 9).to_string()), ("req_id".to_string(), ((i / 9) % 5).to_string())];
+                if f.write(&enc_message(Some(&hdr), format!("foreign-{};mode=now;", i).as_bytes())).await.is_err() {
+                    break;
+                }
+                // take (and ignore) whatever comes back
+                while let Next::Frame(_) = f.next(Duration::from_millis(1)).await {}
+                tokio::time::sleep(Duration::from_millis(3)).await;
+            }
+        })
+    };
     let phases = 3 + rng.below(2) as usize;
     for phase in 0..phases {
         // 1–3 requestors join back to back
@@ -582,6 +600,8 @@ async fn run_churn(addr: SocketAddr, certs: Certs, id: u64, seed: u64, timeout_m
             }
         }
     }
+    foreign.abort();
+    drop(foreign_conn);
     rep_task.abort();
     let l = log.lock().unwrap();
     Ok((calls, l.received, l.sent))
